@@ -147,10 +147,41 @@ def handleMt (th it len : Nat) : String :=
   let s := run (init 3) ops
   if specOk s then s!"D={showList toString (dropsOf s)}" else "MODEL-SPEC-MISMATCH model=mt spec=specOk fails"
 
+/-- bits of a byte string, LSB first -/
+def bitsOfBytes (bs : List Nat) : List Bool :=
+  (bs.map (fun b => (List.range 8).map (fun k => b.testBit k))).flatten
+
+/-- `C16 ffin <kind> <dataOff> <nullsOff> <len> <how> <validity buffer hex>`: an array with
+`ArrayData::offset = dataOff` whose `NullBuffer` is bits `[nullsOff, nullsOff+len)` of the given
+buffer is exported and imported again.  Answer: exported `offset`, exported `null_count`, bits
+`[offset, offset+len)` of the exported bitmap (`-` when no bitmap is exported because nothing is
+null, `?` for the stream interface where the struct is not accessible), imported validity,
+imported null count (recounted from the imported bitmap). -/
+def handleFfin (dataOff nullsOff len how : Nat) (hex : String) : String :=
+  match parseHex hex with
+  | some bytes =>
+    let vb := bitsOfBytes bytes
+    if nullsOff + len > vb.length then "bad-op" else
+    let valid := (vb.drop nullsOff).take len
+    let nulls := (valid.filter (fun b => !b)).length
+    let exported := alignNullsBits dataOff vb nullsOff len
+    let seen := (List.range len).map (fun i => (exported[dataOff + i]?).getD false)
+    if seen != valid then s!"MODEL-SPEC-MISMATCH model={showBits seen} spec={showBits valid}" else
+    let e := if how = 2 then "?" else if nulls = 0 then "-" else showBits seen
+    s!"o{dataOff} n{nulls} e{e} i{showBits seen} c{nulls}"
+  | none => "bad-op"
+
 def handle (toks : List String) : String :=
   match toks with
   | ["hist", n, ops] => handleHist n ops
   | ["ahist", n, ops] => handleHist n ops
+  | ["ffin", kind, d, n, len, how, hex] =>
+    match kind.toNat?, d.toNat?, n.toNat?, len.toNat?, how.toNat? with
+    | some kind, some d, some n, some len, some how =>
+      -- kinds ≥ 2 are typed arrays (data offset 0 only); the hand-built ArrayData (kind 1) cannot
+      -- travel as a record batch column without being re-based
+      if (kind ≥ 2 ∧ d ≠ 0) ∨ (kind = 1 ∧ how = 2) ∨ kind > 7 then "bad-op" else handleFfin d n len how hex
+    | _, _, _, _, _ => "bad-op"
   | ["mt", th, it, len] =>
     match th.toNat?, it.toNat?, len.toNat? with
     | some th, some it, some len => handleMt th it len
